@@ -22,6 +22,7 @@
 
 use crate::codec::SketchBytes;
 use crate::codec::SketchSlice;
+use crate::codec::assert::ensure_remaining;
 use crate::codec::family::Family;
 use crate::error::Error;
 use crate::hll::HllType;
@@ -82,14 +83,24 @@ impl List {
         empty: bool,
         compact: bool,
     ) -> Result<Self, Error> {
-        if lg_arr > 26 {
+        // A list is promoted as soon as its 8 cells are full: it never holds more than 7
+        // coupons, and the promotion relies on the table having at most 8 cells.
+        if lg_arr > 3 || coupon_count > 7 {
             return Err(Error::deserial(format!(
-                "lg_arr must be at most 26, got {lg_arr}"
+                "a coupon list has at most 8 cells and 7 coupons, got lg_arr {lg_arr} and {coupon_count} coupons"
+            )));
+        }
+        if empty && coupon_count != 0 {
+            return Err(Error::deserial(format!(
+                "empty flag set but coupon count is {coupon_count}"
             )));
         }
 
         // Number of coupons stored in the image
         let array_size = if compact { coupon_count } else { 1 << lg_arr };
+        if !empty && coupon_count > 0 {
+            ensure_remaining(&cursor, array_size, 4, "coupons")?;
+        }
 
         // The in-memory table keeps its full size (with empty cells), also when the image
         // is compact, so that the sketch stays updatable after deserialization.
@@ -109,6 +120,13 @@ impl List {
                     ))
                 })?;
             }
+        }
+
+        let num_stored = coupons.iter().filter(|&&c| c != COUPON_EMPTY).count();
+        if num_stored != coupon_count {
+            return Err(Error::deserial(format!(
+                "expected {coupon_count} coupons, found {num_stored}"
+            )));
         }
 
         Ok(Self {
